@@ -119,10 +119,10 @@ def register(PROPS, CLASSIFIERS, REPLAY_RUNNERS):
             return c08.CLASSIFIERS[name](prob, case, flavor)
         return f
     PROPS["C08"] = {"flavors": ["async", "sync"], "streams": [], "oracles": [_c08_replay_monitor], "oracles_on_replay_only": True,
-                    "q_checks": [_lazy("c08", n) for n in ("c08_async", "c08_placements", "c08_sync")],
+                    "q_checks": [_lazy("c08", n) for n in ("c08_async", "c08_placements", "c08_instants", "c08_deep", "c08_sync")],
                     "lake_targets": ["driver_rt"], "thorough_scale": 12}
     PROPS["C09"] = {"flavors": ["async", "sync"], "streams": [], "oracles": [_c08_replay_monitor], "oracles_on_replay_only": True,
-                    "q_checks": [_lazy("c08", n) for n in ("c09_async", "c09_sync")],
+                    "q_checks": [_lazy("c08", n) for n in ("c09_async", "c09_instants", "c09_deep", "c09_sync")],
                     "lake_targets": ["driver_rt"], "thorough_scale": 12}
     for _n in ("stale-queued-after-event", "after-alternatives-fire-once-each", "rollback-leaves-or-duplicates-tasks",
                "stale-queued-done-event"):
